@@ -820,7 +820,8 @@ class State:
             return
         bound = self.arr_bound.get(base.get_id())
         if bound is None:
-            bound = z3.IntVal(PARAM_REF_BASE)
+            # ghost owner: may be a parameter object (e.g. self); heap slots of the pre-state never refer to parameters
+            bound = z3.IntVal(FRESH_REF_BASE if name == 'G:own' else PARAM_REF_BASE)
         # (no heap slot ever refers to the ghost trace list)
         self.pc.append(z3.ForAll([r], z3.And(z3.Select(base, r) >= 0, z3.Select(base, r) < bound, z3.Select(base, r) != 600000),
                                  patterns=[z3.Select(base, r)]))
